@@ -28,6 +28,7 @@ func runC09(c *Ctx) {
 	c09RangePoint(c)
 	c09RangePointAll(c)
 	c09DefaultsExplicit(c)
+	lineVerbatim(c, "C09.line-verbatim", "dnsdata", "(*PreprocReader).Scan")
 	handoverRule(c, "C09.handover", "dnsdata")
 	c09V4Predicate(c, "C09")
 	// the normal form is written with Bquote and read back with Bunquote: a value that does not survive unquoting
